@@ -54,6 +54,7 @@ func init() {
 	vk.Register("C04", "hist", runC04)
 	vk.Register("C04", "float", runC04Float)
 	vk.Register("C04", "str", runC04Str)
+	vk.Register("C04", "deep", runDeepMap)
 }
 
 func TestC04Float(t *testing.T) {
@@ -64,6 +65,33 @@ func TestC04Float(t *testing.T) {
 		})
 		return FloatMapCase{Ops: rapid.SliceOfN(gop, 1, 30).Draw(t, "ops")}
 	}, runC04Float)
+}
+
+// TestC04Deep: maps of millions of keys (see DeepMapCase).
+func TestC04Deep(t *testing.T) {
+	h := vk.Start(t, "C04", "deep")
+	slot := h.Slot()
+	tl := vk.NewTally()
+	cases := []DeepMapCase{{N: 3_460_000}}
+	if h.Thorough() {
+		cases = append(cases, DeepMapCase{N: 3_460_000, Desc: true}, DeepMapCase{N: 6_000_000}, DeepMapCase{N: 1 << 20})
+	}
+	for _, c := range cases {
+		if h.Failed() {
+			break
+		}
+		o := &vk.Obs{}
+		slot.Enter(c)
+		msg := vk.Guard(func() string { return runDeepMap(c, o) })
+		slot.Leave()
+		if msg != "" {
+			p := h.Fail(c, msg)
+			t.Fatalf("VK-VIOLATION property=C04 leg=deep replay=%s\n%s", p, msg)
+		}
+		tl.AddObs(o)
+		h.Sample(c, o.NT)
+	}
+	h.MergeTally(tl)
 }
 
 func TestC04Str(t *testing.T) {
